@@ -1025,6 +1025,252 @@ WORD_CONVERTERS = {"float": "inf / nan / infinity (any case, signed) and exponen
                    "Decimal": "Infinity / NaN / sNaN / 1E3", "eval": "any expression", "literal_eval": "any literal"}
 
 
+# --------------------------------------------------------------------------------------------------------------
+# interface: what a rejection made while the specification is built may compare (select names file columns, rename
+# is applied afterwards - the loader's order, pinned by C08-D2-rejection-guards "select: missing columns raise")
+# --------------------------------------------------------------------------------------------------------------
+_OVERLAP_METHODS = ("intersection", "isdisjoint", "issubset", "issuperset", "difference", "symmetric_difference", "intersection_update", "difference_update")
+_GROW_METHODS = ("update", "add", "append", "extend", "insert", "setdefault", "__setitem__")
+
+
+def _parse_time_keys(repo: Repo, R: Report) -> None:
+    """Every function that builds the run-space dataclasses (the YAML parser; found by role as for
+    C08-D1-declared-defaults) may reject a specification early, but a membership / overlap test whose failing branch
+    raises must compare only keys the expansion certainly produces: inline context keys, or selected columns mapped
+    through rename.  `select` entries and `rename` keys name columns *of the file*; the loader selects first and
+    renames afterwards, so they are not the keys the block contributes.  Feeding them (or rename targets taken on their
+    own) into a duplicate-key test rejects valid specifications - a column renamed away from a name another block
+    uses - that `expand_run_space` expands to the documented list."""
+    rule = R.rule("C08-D2-parse-time-keys", "a membership / overlap test that rejects a specification while it is built (YAML parser) compares only keys the expansion certainly produces - inline context keys, or selected columns mapped through rename; names of source columns before rename (select entries, rename keys) and rename targets on their own never feed it: select names file columns and rename is applied afterwards (loader order), so a valid spec whose column is renamed away from a name used elsewhere would be rejected", 1)
+    classes = _spec_classes(repo)
+    src_classes = [(m, c, f, o) for m, c, f, o in classes.values() if "select" in f and "rename" in f]
+    if not src_classes:
+        raise AnalysisError("run-space source dataclass (fields select / rename) not found from the specification class")
+    names = {c.name for _m, c, _f, _o in classes.values()}
+    for mod in list(repo.modules.values()):
+        if not any(nm in mod.source for nm in names):
+            continue
+        for qn, node in list(mod.defs.items()):
+            if not isinstance(node, FuncNode):
+                continue
+            if not any(isinstance(c, ast.Call) and _last(dotted_name(c.func)) in names for c in walk_no_nested(node)):
+                continue
+            repo.consulted.add(mod.rel)
+            try:
+                fn = nfunc(repo, mod.rel, qn, copyprop="all")
+            except AnalysisError:
+                raise
+            except Exception:
+                fn = node
+            _parse_time_keys_in(repo, R, rule, mod, fn, classes, src_classes)
+
+
+def _parse_time_keys_in(repo: Repo, R: Report, rule: str, mod, fn: ast.AST, classes, src_classes) -> None:
+    FP = Flow(fn)
+    LABELS = ("select", "rename")
+    comp_bound = {t.id for c in ast.walk(fn) if isinstance(c, COMPS) for gen in c.generators for t in ast.walk(gen.target) if isinstance(t, ast.Name)}
+    a = fn.args
+    local_names = {x.arg for x in a.posonlyargs + a.args + a.kwonlyargs} | {x.id for x in ast.walk(fn) if isinstance(x, ast.Name) and isinstance(x.ctx, ast.Store)}
+
+    def keyed_key(e: ast.AST) -> Optional[str]:
+        if isinstance(e, ast.Call) and isinstance(e.func, ast.Attribute) and e.func.attr in ("get", "pop") and e.args and isinstance(e.args[0], ast.Constant) and isinstance(e.args[0].value, str):
+            return e.args[0].value
+        if isinstance(e, ast.Subscript) and isinstance(e.ctx, ast.Load) and isinstance(e.slice, ast.Constant) and isinstance(e.slice.value, str):
+            return e.slice.value
+        return None
+
+    # locals and configuration keys whose value becomes the select / rename field of a source object
+    t_locals: Dict[str, Set[str]] = {}
+    t_keys: Dict[str, Set[str]] = {}
+
+    def taint_from(e: ast.AST, label: str, depth: int = 0) -> None:
+        if depth > 6:
+            return
+        receivers: Set[int] = set()
+        reads = [x for x in ast.walk(e) if keyed_key(x) is not None]
+        for x in reads:
+            recv = x.func.value if isinstance(x, ast.Call) else x.value
+            receivers |= {id(y) for y in ast.walk(recv)}
+        for x in reads:
+            if id(x) not in receivers:  # (the mapping a key is read from - itself read from another one - is not the value)
+                t_keys.setdefault(keyed_key(x), set()).add(label)
+        for x in ast.walk(e):
+            if isinstance(x, ast.Name) and isinstance(x.ctx, ast.Load) and id(x) not in receivers and x.id in local_names and x.id not in comp_bound:
+                if label in t_locals.get(x.id, set()):
+                    continue
+                t_locals.setdefault(x.id, set()).add(label)
+                for v in assigned_value(fn, x.id):
+                    taint_from(v, label, depth + 1)
+
+    for c in ast.walk(fn):
+        if not isinstance(c, ast.Call) or not isinstance(c.func, (ast.Name, ast.Attribute)):
+            continue
+        r = repo.resolve_name(mod, c.func, mod.tree)
+        hit = next((sc for sc in src_classes if r is not None and r[1] is sc[1]), None)
+        if hit is None:
+            continue
+        for label in LABELS:
+            arg = call_arg(c, hit[3].index(label), label)
+            if arg is not None:
+                taint_from(arg, label)
+
+    def binding_iter(nm: ast.Name) -> Optional[ast.AST]:
+        """The iterable a loop / comprehension variable ranges over."""
+        for anc in ancestors(nm):
+            if isinstance(anc, COMPS):
+                for gen in anc.generators:
+                    if isinstance(gen.target, ast.Name) and gen.target.id == nm.id:
+                        return gen.iter
+            if isinstance(anc, ast.For) and isinstance(anc.target, ast.Name) and anc.target.id == nm.id:
+                return anc.iter
+            if anc is fn:
+                break
+        return None
+
+    def direct_labels(e: ast.AST) -> Set[str]:
+        """Labels of the pre-rename column-name sources *e* reads, without following locals."""
+        out: Set[str] = set()
+        for x in ast.walk(e):
+            if isinstance(x, ast.Attribute) and x.attr in LABELS:
+                out.add(x.attr)
+            elif isinstance(x, ast.Name) and x.id in t_locals:
+                out |= t_locals[x.id]
+            elif keyed_key(x) in t_keys:
+                out |= t_keys[keyed_key(x)]
+        return out
+
+    def mapped_through_rename(c: ast.AST) -> Optional[ast.Name]:
+        """`<rename>.get(col, col)` with col ranging over the selection: the key the selected column ends up under."""
+        if isinstance(c, ast.Call) and isinstance(c.func, ast.Attribute) and c.func.attr == "get" and len(c.args) == 2 and not c.keywords and isinstance(c.args[0], ast.Name) and _u(c.args[0]) == _u(c.args[1]) and direct_labels(c.func.value) == {"rename"}:
+            it = binding_iter(c.args[0])
+            if it is not None and direct_labels(it) == {"select"}:
+                return c.args[0]
+        return None
+
+    class Reads:
+        def __init__(self) -> None:
+            self.taints: List[Tuple[str, ast.AST]] = []
+            self.overlaps: List[Tuple[ast.AST, ast.AST, List[ast.AST]]] = []  # (node, statement, operands)
+            self.seen: Set[Tuple[object, int]] = set()
+
+        def visit(self, n: ast.AST, at: ast.AST, depth: int = 0) -> None:
+            if depth > 40:
+                return
+            if isinstance(n, ast.Compare) and len(n.ops) == 1 and isinstance(n.ops[0], (ast.In, ast.NotIn)):
+                cmp = n.comparators[0]
+                if not (isinstance(cmp, (ast.Constant, ast.Tuple, ast.List, ast.Set, ast.Dict)) and all(isinstance(x, ast.Constant) for x in getattr(cmp, "elts", []) or getattr(cmp, "keys", []) or [])):
+                    self.overlaps.append((n, at, [n.left, cmp]))
+            elif isinstance(n, ast.Call) and isinstance(n.func, ast.Attribute) and n.func.attr in _OVERLAP_METHODS:
+                self.overlaps.append((n, at, [n.func.value] + list(n.args)))
+            elif isinstance(n, ast.BinOp) and isinstance(n.op, (ast.BitAnd, ast.Sub, ast.BitXor)):
+                self.overlaps.append((n, at, [n.left, n.right]))
+            if mapped_through_rename(n) is not None:
+                return
+            if isinstance(n, COMPS):
+                # a generator whose variable is only used as `<rename>.get(v, v)` contributes renamed keys
+                for gen in n.generators:
+                    uses = [x for x in ast.walk(n) if isinstance(x, ast.Name) and isinstance(x.ctx, ast.Load) and isinstance(gen.target, ast.Name) and x.id == gen.target.id]
+                    mapped = {id(y) for c in ast.walk(n) if mapped_through_rename(c) is not None for y in c.args}
+                    if uses and all(id(u) in mapped for u in uses):
+                        continue
+                    self.visit(gen.iter, at, depth + 1)
+                for x in ([n.key, n.value] if isinstance(n, ast.DictComp) else [n.elt]) + [i for gen in n.generators for i in gen.ifs]:
+                    self.visit(x, at, depth + 1)
+                return
+            if isinstance(n, ast.Attribute) and not (isinstance(parent(n), ast.Call) and parent(n).func is n):
+                chain = [x.attr for x in ast.walk(n) if isinstance(x, ast.Attribute)]
+                for label in LABELS:
+                    if label in chain:
+                        self.taints.append((label, n))
+                return  # a data field: its holder is not followed (field-sensitive)
+            k = keyed_key(n)
+            if k is not None and k in t_keys:
+                for label in t_keys[k]:
+                    self.taints.append((label, n))
+                return
+            if isinstance(n, ast.Name):
+                if not isinstance(n.ctx, ast.Load) or n.id not in local_names:
+                    return
+                if n.id in t_locals:
+                    for label in t_locals[n.id]:
+                        self.taints.append((label, n))
+                    return
+                if n.id in comp_bound and any(isinstance(x, COMPS) for x in ancestors(n)):
+                    it = binding_iter(n)  # (an operand of a test inside a comprehension is visited on its own)
+                    if it is not None and (id(it), -1) not in self.seen:
+                        self.seen.add((id(it), -1))
+                        self.visit(it, at, depth + 1)
+                    return
+                try:
+                    key = (n.id, FP.nid(at))
+                except AnalysisError:
+                    return
+                if key in self.seen:
+                    return
+                self.seen.add(key)
+                for d in FP.defs(n.id, at):
+                    if d[0] == "val":
+                        self.visit(d[1], d[2], depth + 1)
+                    elif d[0] == "item":
+                        self.visit(d[1], d[3], depth + 1)
+                    elif d[0] == "iter":
+                        self.visit(d[1].iter, d[1], depth + 1)
+                    elif d[0] == "aug":
+                        self.visit(d[1].value, d[1], depth + 1)
+                # what the collection held in the local is grown with, wherever that happens
+                for g in ast.walk(fn):
+                    if isinstance(g, ast.Call) and isinstance(g.func, ast.Attribute) and g.func.attr in _GROW_METHODS and isinstance(g.func.value, ast.Name) and g.func.value.id == n.id:
+                        gkey = (id(g), 0)
+                        if gkey not in self.seen:
+                            self.seen.add(gkey)
+                            grown = g.args[:1] if g.func.attr in ("setdefault", "__setitem__", "update", "add", "append", "extend") else g.args[1:2]
+                            for arg in grown:
+                                self.visit(arg, stmt_of(g), depth + 1)
+                    elif isinstance(g, ast.Subscript) and isinstance(g.ctx, ast.Store) and isinstance(g.value, ast.Name) and g.value.id == n.id:
+                        gkey = (id(g), 0)
+                        if gkey not in self.seen:
+                            self.seen.add(gkey)
+                            self.visit(g.slice, stmt_of(g), depth + 1)
+                return
+            if isinstance(n, ast.Call) and isinstance(n.func, ast.Attribute):
+                self.visit(n.func.value, at, depth + 1)
+                for x in list(n.args) + [kw.value for kw in n.keywords]:
+                    self.visit(x, at, depth + 1)
+                return
+            if isinstance(n, ast.Call) and isinstance(n.func, ast.Name):
+                for x in list(n.args) + [kw.value for kw in n.keywords]:
+                    self.visit(x, at, depth + 1)
+                return
+            if isinstance(n, ast.Lambda):
+                return
+            for ch in ast.iter_child_nodes(n):
+                if isinstance(ch, (ast.expr, ast.comprehension, ast.keyword)) or isinstance(ch, ast.Starred):
+                    self.visit(ch, at, depth + 1)
+
+    done: Set[int] = set()
+    for nd in FP.g.nodes:
+        if nd.kind != "if" or nd.part is None or nd.ast is None:
+            continue
+        rejecting = any(rs for rs in (FP.raise_only(nd.id, "T"), FP.raise_only(nd.id, "F")) if rs)
+        if not rejecting:
+            continue
+        top = Reads()
+        top.visit(nd.part, nd.ast)
+        for op, at, operands in top.overlaps:
+            if id(op) in done:
+                continue
+            done.add(id(op))
+            rd = Reads()
+            for o in operands:
+                rd.visit(o, at)
+            bad = rd.taints[0] if rd.taints else None
+            what = ""
+            if bad is not None:
+                kind = "a select entry (the column's name in the file, before rename)" if bad[0] == "select" else "a rename key / target taken on its own (a rename applies only to a column that is present and selected)"
+                what = f"the rejecting test `{_u(op)[:60]}` is fed by `{_u(bad[1])[:50]}`: {kind} is compared as if it were a key the block contributes - a valid specification whose selected column is renamed away from a name used by another block is rejected while it is parsed, although expand_run_space expands it to the documented list (select, then rename; duplicates are judged after rename)"
+            R.check(bad is None, rule, mod.rel, getattr(fn, "name", "?"), f"rejecting key test `{_u(op)[:60]}` reads only keys the expansion certainly produces", what, getattr(bad[1] if bad else op, "lineno", getattr(at, "lineno", 0)))
+
+
 def _cell_converters(repo: Repo, R: Report) -> None:
     """Text read from a source file stays the text that was written unless it is spelled like a number: in the
     functions that load a source (call graph of _load_and_process_source), a converter that also accepts *words*
@@ -2426,12 +2672,186 @@ def run(repo: Repo, R: Report) -> None:
                 return False
         return True
 
-    at_blk = equal_atom(F, lambda cols, at: id(at) in in_bl and reads_runs(cols, at))
+    blk_compared: List[Tuple[List[ast.AST], ast.AST]] = []  # the length collections the block-level guards compare
+
+    def accept_blk(cols: List[ast.AST], at: ast.AST) -> bool:
+        good = id(at) in in_bl and reads_runs(cols, at)
+        if good and not any(all(a is b for a, b in zip(cols, seen)) and len(cols) == len(seen) for seen, _a in blk_compared):
+            blk_compared.append((list(cols), at))
+        return good
+
+    def side_values(x: ast.AST, at: ast.AST) -> Tuple[FrozenSet[str], Optional[Set[str]]]:
+        """For a run list of the block: (side(s) whose expansion it holds, source texts of the values that stand
+        for "this side was not expanded" - None when such a value is not a plain constant / name)."""
+        side: Set[str] = set()
+        alts: Optional[Set[str]] = set()
+        todo = [v for v, _s in F.values(x, at)]
+        while todo:
+            v = todo.pop()
+            if isinstance(v, ast.IfExp):
+                todo.extend([v.body, v.orelse])
+                continue
+            hit = False
+            for y in ast.walk(v):
+                if any(y is c for c in ctx_exp):
+                    side.add("ctx")
+                    hit = True
+                elif any(y is c for c in src_exp):
+                    side.add("src")
+                    hit = True
+            if not hit:
+                if isinstance(v, (ast.Constant, ast.Name, ast.Attribute)) and v is not x:
+                    if alts is not None:
+                        alts.add(_u(v))
+                else:
+                    alts = None
+        return frozenset(side), alts
+
+    def absent_atom(var: str, alts: Set[str]):
+        """Atom "the element *var* stands for is the value used for a side that was not expanded"."""
+        def atom(e: ast.AST) -> Optional[bool]:
+            if isinstance(e, ast.Compare) and len(e.ops) == 1 and isinstance(e.ops[0], (ast.Is, ast.IsNot, ast.Eq, ast.NotEq)):
+                l, r = e.left, e.comparators[0]
+                if not (isinstance(l, ast.Name) and l.id == var):
+                    l, r = r, l
+                if isinstance(l, ast.Name) and l.id == var and _u(r) in alts:
+                    return isinstance(e.ops[0], (ast.Is, ast.Eq))
+            if alts == {"None"} and isinstance(e, ast.Call) and isinstance(e.func, ast.Name) and e.func.id == "isinstance" and len(e.args) == 2 and isinstance(e.args[0], ast.Name) and e.args[0].id == var:
+                return False
+            return None
+        return atom
+
+    def presence_test(e: ast.AST, at: ast.AST) -> bool:
+        """`X is not None` on a run list of the block whose not-expanded value is None."""
+        if isinstance(e, ast.Compare) and len(e.ops) == 1 and isinstance(e.ops[0], (ast.IsNot, ast.NotEq)):
+            l, r = e.left, e.comparators[0]
+            if not isinstance(l, ast.Name):
+                l, r = r, l
+            if isinstance(l, ast.Name):
+                side, alts = side_values(l, at)
+                return bool(side) and bool(alts) and _u(r) in alts
+        return False
+
+    at_blk0 = equal_atom(F, accept_blk)
+
+    def at_blk(e: ast.AST) -> Optional[bool]:
+        r = at_blk0(e)
+        if r is None and isinstance(e, ast.BoolOp) and isinstance(e.op, ast.And):
+            # `A is not None and B is not None and len(A) != len(B)`: false when a side is absent (nothing to
+            # compare) or the counts agree
+            differ = [v for v in e.values if at_blk0(v) is False]
+            rest = [v for v in e.values if not any(v is d for d in differ)]
+            if differ and rest and all(presence_test(v, stmt_of(e)) for v in rest):
+                return False
+        return r
+
     at_all = equal_atom(F, lambda cols, at: id(at) not in in_bl and all(reads_all(c) for c in cols))
     g_blk = [(n, e) for n, e in F.rejecting(at_blk)]
     g_all = [(n, e) for n, e in F.rejecting(at_all)]
     R.check(bool(g_blk), r_g, RS, ERS, "block: context vs source run counts must match", "the context-vs-source size guard of a by_position block is missing or no longer raises", fn.lineno)
     R.check(bool(g_all), r_g, RS, ERS, "combine=by_position: block sizes must match", "the block-size guard of combine=by_position is missing or no longer raises", fn.lineno)
+
+    # the block-level comparison covers every side that was expanded: a side is left out only when it is absent
+    r_sides = R.rule("C08-D2-sides-compared", "in a by_position block the run-count comparison between inline context and source covers every side that was expanded: a side is left out of the compared lengths only when it is absent (no entries: the value standing for 'not expanded'), never because its expansion is empty - a declared key with an empty value list / a header-only file is a 0-run side, and 0 against n is a length mismatch", 1)
+
+    def run_lists(e: ast.AST, at: ast.AST, filters: Tuple = (), depth: int = 0) -> Optional[List[Tuple[ast.AST, ast.AST, Tuple]]]:
+        """The run lists held by the collection *e* (a display, a filtering comprehension / filter() over one, a local
+        naming one, a list grown by guarded appends): (element, statement, filters ((condition, name the condition
+        uses for the element), ..) the element has to pass to stay in the collection); None for an unknown shape."""
+        if depth > 6:
+            return None
+        while isinstance(e, ast.Call) and isinstance(e.func, ast.Name) and e.func.id in ("list", "tuple", "iter") and len(e.args) == 1 and not e.keywords:
+            e = e.args[0]
+        if isinstance(e, (ast.Tuple, ast.List)):
+            if any(isinstance(x, ast.Starred) for x in e.elts):
+                return None
+            return [(x, at, tuple(filters)) for x in e.elts]
+        if isinstance(e, (ast.ListComp, ast.GeneratorExp)) and len(e.generators) == 1 and isinstance(e.generators[0].target, ast.Name) and isinstance(e.elt, ast.Name) and e.elt.id == e.generators[0].target.id:
+            gen = e.generators[0]
+            return run_lists(gen.iter, at, tuple(filters) + tuple((c, gen.target.id) for c in gen.ifs), depth + 1)
+        if isinstance(e, ast.Call) and isinstance(e.func, ast.Name) and e.func.id == "filter" and len(e.args) == 2 and not e.keywords:
+            f0 = e.args[0]
+            if isinstance(f0, ast.Constant) and f0.value is None:
+                return run_lists(e.args[1], at, tuple(filters) + ((ast.Name(id="_element_", ctx=ast.Load()), "_element_"),), depth + 1)
+            if isinstance(f0, ast.Lambda) and len(f0.args.args) == 1:
+                return run_lists(e.args[1], at, tuple(filters) + ((f0.body, f0.args.args[0].arg),), depth + 1)
+            return None
+        if isinstance(e, ast.Name):
+            vals = [(v, st) for v, st in F.values(e, at) if v is not e]
+            if not vals:
+                return None
+            out: List[Tuple[ast.AST, ast.AST, Tuple]] = []
+            if mutated_in(bl, e.id):
+                # parts = []; if <cond>: parts.append(side_runs)
+                if not all(isinstance(v, ast.List) and not v.elts for v, _s in vals):
+                    return None
+                for n in ast.walk(bl):
+                    if isinstance(n, ast.Call) and isinstance(n.func, ast.Attribute) and isinstance(n.func.value, ast.Name) and n.func.value.id == e.id:
+                        if not (n.func.attr == "append" and len(n.args) == 1 and isinstance(n.args[0], ast.Name) and isinstance(parent(n), ast.Expr)):
+                            return None
+                        st = parent(n)
+                        conds: List[Tuple[ast.AST, str]] = []
+                        child: ast.AST = st
+                        for a in ancestors(st):
+                            if a is bl or any(y is at for y in ast.walk(a)):
+                                break  # a branch around both the growth and the use of the list filters nothing
+                            if isinstance(a, ast.If):
+                                conds.append((a.test if any(child is b for b in a.body) else ast.UnaryOp(op=ast.Not(), operand=a.test), n.args[0].id))
+                            elif not isinstance(a, ast.stmt) or isinstance(a, (ast.For, ast.While, ast.Try, ast.With)):
+                                return None
+                            child = a
+                        out.append((n.args[0], st, tuple(filters) + tuple(conds)))
+                for n in ast.walk(bl):
+                    if isinstance(n, ast.AugAssign) and isinstance(n.target, ast.Name) and n.target.id == e.id:
+                        return None
+                    if isinstance(n, ast.Subscript) and isinstance(n.ctx, (ast.Store, ast.Del)) and isinstance(n.value, ast.Name) and n.value.id == e.id:
+                        return None
+                return out
+            for v, st in vals:
+                r = run_lists(v, st, filters, depth + 1)
+                if r is None:
+                    return None
+                out.extend(r)
+            return out
+        return None
+
+    sides_seen: Set[str] = set()
+    judged = False
+    for cols, at in blk_compared:
+        elements: Optional[List[Tuple[ast.AST, ast.AST, Tuple]]] = []
+        for c in cols:
+            got: Optional[List[Tuple[ast.AST, ast.AST, Tuple]]] = None
+            m_len = match("len(_A_)", c)
+            if m_len:
+                got = [(m_len["_A_"], at, ())]
+            elif isinstance(c, (ast.ListComp, ast.SetComp, ast.GeneratorExp)) and len(c.generators) == 1 and isinstance(c.generators[0].target, ast.Name) and match(f"len({c.generators[0].target.id})", c.elt):
+                gen = c.generators[0]
+                got = run_lists(gen.iter, at, tuple((t, gen.target.id) for t in gen.ifs))
+            elif match("map(len, _X_)", c):
+                got = run_lists(c.args[1], at)
+            if got is None:
+                elements = None
+                break
+            elements.extend(got)
+        if elements is None:
+            continue
+        for x, x_at, filters in elements:
+            side, alts = side_values(x, x_at)
+            if len(side) != 1:
+                continue
+            judged = True
+            sides_seen |= side
+            if not alts:
+                continue  # no value of its own for "not expanded": nothing a filter could single out
+            which = "inline context" if side == CTX else "source"
+            for cond, var in filters:
+                keeps_every_expansion = "F" in edges_guaranteeing(cond, absent_atom(var, alts))
+                R.check(keeps_every_expansion, r_sides, RS, ERS, f"{which} run list enters the block's run-count comparison unless it is absent", f"the {which} run list is left out of the context-vs-source run-count comparison by the filter `{_u(cond)[:60]}`, which also drops an *empty expansion* (a declared key with an empty value list, a header-only file), not only an absent side: 0 runs against n is no longer rejected as mismatched lengths and the block's runs lack the dropped side's keys", getattr(cond, "lineno", x_at.lineno))
+            if not filters:
+                R.ok(r_sides, RS, ERS, f"{which} run list enters the block's run-count comparison unless it is absent")
+    if judged:
+        missing_sides = {"ctx", "src"} - sides_seen
+        R.check(not missing_sides, r_sides, RS, ERS, "both sides of a by_position block are compared", "the run-count comparison of a by_position block leaves out the " + " and the ".join("inline context" if s == "ctx" else "source" for s in sorted(missing_sides)) + " run list: a context/source length mismatch is no longer rejected", blk_compared[0][1].lineno)
 
     # duplicate keys
     def overlap_operands(flow: Flow, e: ast.AST, at: ast.AST) -> List[Tuple[ast.AST, ast.AST, ast.AST]]:
@@ -3080,6 +3500,7 @@ def run(repo: Repo, R: Report) -> None:
     _source_columns(repo, R)
     _cell_converters(repo, R)
     _declared_defaults(repo, R)
+    _parse_time_keys(repo, R)
     read_errors_rule(repo, R)
 
     # ------------------------------------------------------------------ D4 error classes
